@@ -54,6 +54,7 @@ class SchedWorld:
         self.params = params
         self.ch = Chooser(prefix, expect)
         self.dev = set(params.get("dev", ("fate", "bump", "overhear", "cancel")))
+        self.cmd_fate: dict[str, str] = {}
         self.w = G.GwyWorld()
         L = G.lib()
         import ramses_rf.system.heat as H
@@ -151,8 +152,15 @@ class SchedWorld:
                     c["cancelled"] = True
                     loop.call_soon(c["task"].cancel)
         fate = "ok"
-        if self.faults and is_sched and "fate" in self.dev:
-            fate = self.ch.choose([(("ok",), 0), (("lose_reply",), 1), (("lose_tx",), 1), (("dup_reply",), 1), (("late_reply",), 1), (("very_late_reply",), 1)])[0]
+        if self.faults and frame in self.cmd_fate:  # a retransmission of a command whose every transmission / every reply is lost: no new choice
+            fate = self.cmd_fate[frame]
+        elif self.faults and is_sched and "fate" in self.dev:
+            menu = [(("ok",), 0), (("lose_reply",), 1), (("lose_tx",), 1), (("dup_reply",), 1), (("late_reply",), 1), (("very_late_reply",), 1)]
+            if new:  # the whole exchange fails whatever the QoS layer retransmits (one deviation: the device is out of reach for ~2 s)
+                menu += [(("lose_cmd",), 1), (("lose_rps",), 1)]
+            fate = self.ch.choose(menu)[0]
+            if fate in ("lose_cmd", "lose_rps"):
+                self.cmd_fate[frame] = fate = "lose_tx" if fate == "lose_cmd" else "lose_reply"
         if fate == "lose_tx":
             return
         loop.call_later(0.01, self._deliver, self.w.echo(tx, frame))
@@ -247,6 +255,7 @@ class SchedWorld:
                 loop.quiesce(loop.time() + p["age"])
             self.faults = True
             self.seen_frames.clear()
+            self.cmd_fate.clear()
             self.newcmds = 0
             for i, c in enumerate(p["callers"]):
                 if c.get("start", 0) == 0:
